@@ -2,6 +2,8 @@ import OpusModel.SilkStereo
 import OpusProofs.SilkStereoTab
 import OpusProofs.SilkStereoMain
 import OpusProofs.SilkStereoAgree
+import OpusProofs.SilkStereoSym
+import OpusProofs.SilkStereoLoops
 /-
   OpusProps.C18Stereo — property C18 (SILK side information dequantises to stable, in-range parameters), slice Stereo:
   the mid/side predictor side information (silk/stereo_quant_pred.c, stereo_encode_pred.c, stereo_decode_pred.c).
@@ -125,6 +127,33 @@ theorem dequant_in_range (n a0 b0 a1 b1 : Nat) (hn : n < 25) (ha0 : a0 < 3) (hb0
   symlayer_spec hn ha0 hb0 ha1 hb1
 
 example : decodePred 4 0 0 2 4 = .ok (-26726, 13362) ∧ decodePred 20 2 4 0 0 = .ok (26726, -13364) := by decide +kernel
+
+/-- … and for EVERY state of the range decoder (any packet bytes, any position): the symbol layer's
+    `silk_stereo_decode_pred` returns symbols below the table sizes (the iCDF scan stops at the terminating 0), so the
+    predictors it hands to `silk_stereo_MS_to_LR` are in range and equal this model's `decodePred` of those symbols. -/
+theorem dequant_in_range_any_state (c : RangeCoder.Dec) :
+    ∃ n a0 b0 a1 b1 : Nat, n < 25 ∧ a0 < 3 ∧ b0 < 5 ∧ a1 < 3 ∧ b1 < 5 ∧
+      decodePred n a0 b0 a1 b1 = .ok ((SilkSyms.stereoDecodePred c).1.pred0, (SilkSyms.stereoDecodePred c).1.pred1) ∧
+      -26726 ≤ (SilkSyms.stereoDecodePred c).1.pred0 ∧ (SilkSyms.stereoDecodePred c).1.pred0 ≤ 26726 ∧
+      -13364 ≤ (SilkSyms.stereoDecodePred c).1.pred1 ∧ (SilkSyms.stereoDecodePred c).1.pred1 ≤ 13362 := by
+  obtain ⟨n, a0, b0, a1, b1, hn, ha0, hb0, ha1, hb1, e⟩ := OpusProofs.SilkStereoSym.decode_any c
+  rw [e]
+  exact ⟨n, a0, b0, a1, b1, hn, ha0, hb0, ha1, hb1, symlayer_spec hn ha0 hb0 ha1 hb1⟩
+
+example : (SilkSyms.stereoDecodePred (RangeCoder.decInit [0xf8, 0xd1, 0, 0] 4)).1.pred1 = 6350 := by decide +kernel
+
+/-- `silk_stereo_decode_mid_only`: the decoded flag is 0 or 1 for every state of the range decoder (two-entry iCDF). -/
+theorem mid_only_flag_binary (c : RangeCoder.Dec) : (SilkSyms.stereoDecodeMidOnly c).1 ≤ 1 :=
+  OpusProofs.SilkStereoSym.mid_only_le c
+
+example : (SilkSyms.stereoDecodeMidOnly (RangeCoder.decInit [0xff, 0xff, 0, 0] 4)).1 = 1 := by decide +kernel
+
+/-- TRANSCRIPTION.  The search written statement for statement with its two nested `for` loops and the `goto done`
+    (OpusModel/SilkStereoLoops.lean) is the scan over the visiting order that `quantOne` — hence every theorem above — uses. -/
+theorem nested_loops_are_scan (pred qIn a b : Int) : quantOneLoops pred qIn a b = quantOne pred qIn a b :=
+  OpusProofs.SilkStereoLoops.quantOneLoops_eq pred qIn a b
+
+example : quantOneLoops 4000 0 85 85 = some { q := 3975, ix0 := 0, ix1 := 2, ix2 := 3 } := by decide +kernel
 
 /-- THE DOMAIN IS EXACT (finding about the code, outside what the encoder produces).  For `pred_Q13[n] = 2147470283`
     (`silk_int32_MAX - 13364`) there is no overflow but the first level's error equals `silk_int32_MAX`, so `goto done` is
